@@ -221,11 +221,11 @@ def families(tier, seed):
     hist = [[h] for h in singles]
     pairs = [list(p) for p in itertools.product(singles, repeat=2)]
     rng.shuffle(pairs)
-    hist += pairs[: (40 if tier == "quick" else 400)]
+    hist += pairs[: (40 if tier == "quick" else 1500)]
     if tier == "thorough":
         triples = [list(p) for p in itertools.product(singles, repeat=3)]
         rng.shuffle(triples)
-        hist += triples[:300]
+        hist += triples[:1000]
     for i, h in enumerate(hist):
         tgt = P[i % len(P)]
         for vec in ((True,) if tier == "quick" and i % 2 else (False, True)):
